@@ -118,29 +118,40 @@ def acceptedBy (tv : List String) (m : Msg) : Bool :=
 /-- The request is sent to the server under the 2026-07-28 protocol. -/
 def Msg.new (m : Msg) : Bool := m.side == .server && usesNew m.req
 
+/-- The flags of the method in the receiving side's method table (`none`: unknown there). -/
+def flagsOf (m : Msg) : Option Flags :=
+  m.req.method.bind (lookup (if m.side == .server then serverMethodInfos else clientMethodInfos))
+
+/-- What a refusal with code `c` looks like on the wire: an error response for a call, nothing for a
+notification. -/
+def refusal (m : Msg) (c : Int) (data : Option (List String)) : W := if m.req.hasId then .err c data else .none
+
+/-- The method / id / params checks (once the envelope is past metadata, version and gate). -/
+def specTail (m : Msg) : Option W :=
+  let r := m.req
+  match flagsOf m with
+  | none => some (refusal m (-32601) none)
+  | some f =>
+    if f.notification && r.hasId then some (refusal m (-32600) none)
+    else if !f.notification && !r.hasId then some .none
+    else if !f.missingParamsOK && (r.params == .absent || r.params == .null) then some (refusal m (-32600) none)
+    else if r.params == .objUndecodable || r.params == .wrongType then some (refusal m (-32602) none)
+    else if !r.hasId then some .none
+    else none
+
 /-- The property's answer for an envelope, given only the implementation's own previous session
 state. `none` = any single answer (the handler decides). Precedence as documented in Props.lean:
 per-request metadata, then version, then the lifecycle gate, then method / id / params checks. -/
 def specWire (tv : List String) (prevInit : Bool) (m : Msg) : Option W :=
   let r := m.req
-  let tbl := if m.side == .server then serverMethodInfos else clientMethodInfos
-  let flags := r.method.bind (lookup tbl)
-  let rej (c : Int) : Option W := some (if r.hasId then .err c none else .none)
   if preemptDrops r then some .none
-  else if m.new && !metaComplete r then rej (-32602)
-  else if m.new && !acceptedBy tv m then some (if r.hasId then .err (-32022) (some tv) else .none)
-  else if m.new && specRemoved.contains m.mname then rej (-32601)
-  else if m.side == .server && !m.new && m.mname == "server/discover" then rej (-32601)
-  else if m.side == .server && !m.new && !prevInit && !(["initialize", "notifications/initialized", "ping"].contains m.mname) then rej 0
-  else match flags with
-    | none => rej (-32601)
-    | some f =>
-      if f.notification && r.hasId then rej (-32600)
-      else if !f.notification && !r.hasId then some .none
-      else if !f.missingParamsOK && (r.params == .absent || r.params == .null) then rej (-32600)
-      else if r.params == .objUndecodable || r.params == .wrongType then rej (-32602)
-      else if !r.hasId then some .none
-      else none
+  else if m.new && !metaComplete r then some (refusal m (-32602) none)
+  else if m.new && !acceptedBy tv m then some (refusal m (-32022) (some tv))
+  else if m.new && specRemoved.contains m.mname then some (refusal m (-32601) none)
+  else if m.side == .server && !m.new && m.mname == "server/discover" then some (refusal m (-32601) none)
+  else if m.side == .server && !m.new && !prevInit && !(["initialize", "notifications/initialized", "ping"].contains m.mname) then
+    some (refusal m 0 none)
+  else specTail m
 
 /-- The first rule of a list whose condition holds. -/
 def firstRule (l : List (Bool × Clause)) : Option Clause :=
